@@ -516,6 +516,107 @@ theorem decode_agrees (p : Params) (inp : List UInt8) :
           unfold decRunFrom at this
           simp [this, Agrees]
 
+/-! ### which error for which input: a batch decoder that reports errors -/
+
+/-- Put already-decoded bytes in front of the rest of the decoding. -/
+def prepend (o : List UInt8) (r : Except DecErr (List UInt8)) : Except DecErr (List UInt8) :=
+  match r with
+  | .error e => .error e
+  | .ok out => .ok (o ++ out)
+
+/-- Batch decoder from a chunk boundary after the first chunk, reporting the error the
+incremental decoder reports.  Chunk by chunk, in this order: bad first header byte, missing
+second byte, bad second byte, size above the limit, body cut short; at the end of the input,
+the last chunk must have been short. -/
+def decSubE (p : Params) : Nat → Bool → List UInt8 → Except DecErr (List UInt8)
+  | 0, _, _ => .error .cutShort
+  | _ + 1, pend, [] => if pend then .ok [] else .error .missingImplicitTerminator
+  | _ + 1, _, [b] => if b.toNat ≥ p.radix then .error (.invalidHeaderByte false b) else .error .cutShort
+  | fuel + 1, pend, b :: c :: rest =>
+    if b.toNat ≥ p.radix then .error (.invalidHeaderByte false b)
+    else if c.toNat ≥ p.radix then .error (.invalidHeaderByte true c)
+    else if b.toNat + c.toNat * p.radix > p.maxSub then
+      .error (.invalidSubsequentSizeHeader (b.toNat + c.toNat * p.radix))
+    else if rest.length < b.toNat + c.toNat * p.radix then .error .cutShort
+    else prepend ((if pend then [FE, FD] else []) ++ rest.take (b.toNat + c.toNat * p.radix))
+      (decSubE p fuel (b.toNat + c.toNat * p.radix < p.maxSub) (rest.drop (b.toNat + c.toNat * p.radix)))
+
+/-- The error-reporting batch decoder. -/
+def decodeE (p : Params) : List UInt8 → Except DecErr (List UInt8)
+  | [] => .error .cutShort
+  | b :: rest =>
+    if b.toNat > p.maxInit then .error (.invalidInitialSizeHeader b)
+    else if rest.length < b.toNat then .error .cutShort
+    else prepend (rest.take b.toNat) (decSubE p (rest.length + 1) (b.toNat < p.maxInit) (rest.drop b.toNat))
+
+theorem decRunFrom_sub (p : Params) (fuel : Nat) (pend : Bool) (inp : List UInt8) (hf : inp.length < fuel) :
+    decRunFrom p (.beforeChunk pend) inp = decSubE p fuel pend inp := by
+  induction fuel generalizing pend inp with
+  | zero => omega
+  | succ fuel ih =>
+    match inp with
+    | [] => cases pend <;> simp [decSubE, decRunFrom, finishB, Dec.finish]
+    | [b] =>
+      simp only [decSubE, decRunFrom, foldB_cons, foldB_nil, stepB]
+      by_cases h1 : b.toNat ≥ p.radix
+      · simp [h1, finishB]
+      · simp [h1, finishB, Dec.finish]
+    | b :: c :: rest =>
+      simp only [decSubE, decRunFrom, foldB_cons, stepB]
+      by_cases h1 : b.toNat ≥ p.radix
+      · simp [h1, finishB]
+      · by_cases h2 : c.toNat ≥ p.radix
+        · simp [h1, h2, finishB]
+        · by_cases h3 : b.toNat + c.toNat * p.radix > p.maxSub
+          · simp [h1, h2, h3, finishB]
+          · have hst : (if b.toNat + c.toNat * p.radix > 0 then
+                  (Except.ok (DecState.inChunk (b.toNat + c.toNat * p.radix)
+                    (b.toNat + c.toNat * p.radix < p.maxSub), []) : Except DecErr (DecState × List UInt8))
+                else .ok (DecState.beforeChunk (b.toNat + c.toNat * p.radix < p.maxSub), []))
+                = .ok (afterHdr (b.toNat + c.toNat * p.radix) (b.toNat + c.toNat * p.radix < p.maxSub), []) := by
+              unfold afterHdr; split <;> rfl
+            simp only [if_neg h1, if_neg h2, if_neg h3, hst, finishB_andThen_ok, List.nil_append]
+            have hb := decRunFrom_body p (b.toNat + c.toNat * p.radix) (b.toNat + c.toNat * p.radix < p.maxSub) rest
+            unfold decRunFrom at hb
+            rw [hb]
+            by_cases hl : rest.length < b.toNat + c.toNat * p.radix
+            · simp [hl]
+            · have hlen : (rest.drop (b.toNat + c.toNat * p.radix)).length < fuel := by
+                simp only [List.length_drop, List.length_cons] at *; omega
+              have ih' := ih (decide (b.toNat + c.toNat * p.radix < p.maxSub)) _ hlen
+              unfold decRunFrom at ih'
+              rw [if_neg hl, if_neg hl, ih']
+              cases decSubE p fuel (decide (b.toNat + c.toNat * p.radix < p.maxSub))
+                (List.drop (b.toNat + c.toNat * p.radix) rest) <;> simp [prepend]
+
+/-- The byte-at-a-time reference run is the error-reporting batch decoder. -/
+theorem decRun_eq_decodeE (p : Params) (inp : List UInt8) : decRun p inp = decodeE p inp := by
+  unfold decRun
+  match inp with
+  | [] => simp [decodeE, decRunFrom, finishB, Dec.finish]
+  | b :: rest =>
+    simp only [decodeE, decRunFrom, foldB_cons, stepB]
+    by_cases h1 : b.toNat > p.maxInit
+    · simp [h1, finishB]
+    · have hst : (if b.toNat > 0 then
+            (Except.ok (DecState.inChunk b.toNat (b.toNat < p.maxInit), []) : Except DecErr (DecState × List UInt8))
+          else .ok (DecState.beforeChunk (b.toNat < p.maxInit), []))
+          = .ok (afterHdr b.toNat (b.toNat < p.maxInit), []) := by
+        unfold afterHdr; split <;> rfl
+      simp only [if_neg h1, hst, finishB_andThen_ok, List.nil_append]
+      have hb := decRunFrom_body p b.toNat (b.toNat < p.maxInit) rest
+      unfold decRunFrom at hb
+      rw [hb]
+      by_cases hl : rest.length < b.toNat
+      · simp [hl]
+      · have hlen : (rest.drop b.toNat).length < rest.length + 1 := by
+          simp only [List.length_drop]; omega
+        have hs := decRunFrom_sub p _ (decide (b.toNat < p.maxInit)) _ hlen
+        unfold decRunFrom at hs
+        rw [if_neg hl, if_neg hl, hs]
+        cases decSubE p (rest.length + 1) (decide (b.toNat < p.maxInit)) (List.drop b.toNat rest) <;>
+          simp [prepend]
+
 /-! ### panic freedom (`dec_total`) -/
 
 /-- States the decoder can be in when `once` is called: the initial state and
